@@ -719,6 +719,27 @@ func (c *Ctx) cmdApplies(rule string, file string, ops []string, clause string) 
 					return true
 				}
 			}
+			// the operation applied through a helper of the command that takes the tree
+			// (`collapseLength(t.Tree, threshold)`)
+			if gi := c.FuncOfObj(fn); gi != nil && gi.Decl.Body != nil && gi.Pkg == fi.Pkg {
+				takesTree := false
+				for _, a := range call.Args {
+					if t := info.TypeOf(a); t != nil && isTreePtr(t) {
+						takesTree = true
+					}
+				}
+				if takesTree {
+					for _, inner := range callsIn(gi.Decl.Body, true) {
+						if g := calleeOf(gi.Pkg.TypesInfo, inner); g != nil && inRepo(g) {
+							for _, o := range ops {
+								if g.Name() == o {
+									return true
+								}
+							}
+						}
+					}
+				}
+			}
 			return false
 		}
 		var opCalls []*ast.CallExpr
